@@ -19,7 +19,7 @@ RULE = ('evaluation = one history of 3-15 operations (add constraint incl. dupli
 SIM_TIME_NOTE = 'no clock; sim_steps = edit/solve operations applied'
 STUBS = ['reference model: Python lists {objective, constraints} with the documented add/delete semantics',
          'no scheduler and no injected fault: refused operations are ordinary operations (fault-free corner)']
-ASSUMPTIONS = ['status compared only when both sides are decisive (optimal / primal infeasible / dual infeasible); optimal values to 1e-6 relative',
+ASSUMPTIONS = ['status compared only when both sides are decisive (optimal / primal infeasible / dual infeasible); optimal values to 1e-5 relative (the LPs themselves are solved to reltol 1e-6)',
                'constraint pools use continuous random right-hand sides, so exactly degenerate feasibility has probability zero',
                'solvers.lp (default KKT solver) is used by both the edited and the fresh op']
 TIERS = {'quick': {'units': 160, 'wall_cap': 70.0, 'unit_timeout': 300.0},
@@ -350,7 +350,7 @@ def run_history(case, journal):
                             return V('solve-differs-from-fresh', 'op %d: status %r, fresh op %r' % (i, r1[1], r2[1]), op=kind, what='status')
                         if r1[1] == 'optimal':
                             a, b = r1[2], r2[2]
-                            if abs(a - b) > 1e-6 * max(1.0, abs(a), abs(b)):
+                            if abs(a - b) > 1e-5 * max(1.0, abs(a), abs(b)):   # both LPs are solved to reltol 1e-6 / abstol 1e-7
                                 return V('solve-differs-from-fresh', 'op %d: optimal value %r, fresh op %r' % (i, a, b), op=kind, what='value')
                         bump('solves_compared.' + r1[1].replace(' ', '_'))
                     else:
